@@ -73,4 +73,17 @@ CHECKS = {
   "text": "TLC enumerates all lists of <=2 (quick) / <=3 rules from 29 rules covering every rule shape (all anchors and regex forms, every option bit, include/exclude domain lists, tags on block/exception/important/csp, redirect with priority, redirect-rule, redirect exception, csp, blanket csp exception, removeparam, scheme-folded, badfilter, tokenless multi-domain) x tag sets; the reloaded engine (tags set before loading) must give an Ideal verdict and the same answers as the original for every request. The wire layer of the spec predicts the reloaded behaviour when removeparam rules are present (open finding wireDropsRemoveparam).",
   "note": TB + "Network and CSP queries only so far; the cosmetic half of the image (hostname rule db, class/id stores, scriptlet permissions) is covered when the cosmetic universes (C16-C18) run with the reload flag.",
  },
+
+ "C09": {
+  "level": "model_checking",
+  "technique": "TLA+ model of hash-seed dependent container iteration vs ordered views (Wire.tla) checked by TLC; recorded serializations (fresh builds, child processes, reloads) validated by a TLA+ trace spec",
+  "text": "M1: Wire.tla gives every hash container of the image a nondeterministic iteration order per process and per reload; TLC checks that the image is one value and a fixpoint when every container goes through an ordered view (and finds the counterexample when one is switched to raw iteration). M3: the real engine serializes 6 (quick) / 30 lists x 3 configurations by 3 fresh in-process builds, 3 / 12 child processes (fresh hash seeds) and after one and two reloads; Trace_C09 keeps the first image per configuration as state and rejects any later different one.",
+  "note": TB + "Bytes are opaque (digest + length). The real hash seeds are sampled (fresh maps, fresh processes), not enumerated; lists are sized so that every container has many entries.",
+ },
+ "C10": {
+  "level": "fault_enumeration",
+  "technique": "exhaustive single-fault enumeration (prefixes, bit flips, structural byte substitutions, header variants) + seeded multi-byte/random inputs loaded in sequence into one long-lived engine; the recorded run is validated by a TLA+ trace spec built on Load.tla (atomic load state machine)",
+  "text": "Load.tla states the allowed outcomes of a load (valid image: state replaced, tags kept; rejected: nothing changes; accepted corrupt: any state but no panic) and TLC checks atomicity on it, including that a non-atomic commit (deviation switch) is found. The harness enumerates 22k (quick) / 90k faults of two valid images, loads each into one long-lived engine with enabled tags, runs a 13-query battery (network, csp, cosmetic, class/id, tag_exists) and re-serializes after every load, interleaving valid loads; peak allocation during each load is measured. Trace_C10 replays the whole event sequence through the Load actions: the battery digest after a rejected load must equal the digest of the state before it.",
+  "note": TB + "Allocation bound 64 MiB + 4 KiB/byte (counting allocator). Process aborts would surface as tool errors. Battery digests stand for engine state.",
+ },
 }
